@@ -94,16 +94,20 @@ pub async fn remove_hash<P: AsRef<Path>>(cache: P, sri: &Integrity) -> Result<()
 #[cfg(any(feature = "async-std", feature = "tokio"))]
 pub async fn clear<P: AsRef<Path>>(cache: P) -> Result<()> {
     async fn inner(cache: &Path) -> Result<()> {
-        for entry in cache
-            .read_dir()
-            .with_context(|| {
+        for entry in cache.read_dir().with_context(|| {
+            format!(
+                "Failed to read directory contents while clearing cache, at {}",
+                cache.display()
+            )
+        })? {
+            // An entry that can't be read is an error like any other: skipping
+            // it would report a cache as cleared that still holds everything.
+            let entry = entry.with_context(|| {
                 format!(
                     "Failed to read directory contents while clearing cache, at {}",
                     cache.display()
                 )
-            })?
-            .flatten()
-        {
+            })?;
             crate::async_lib::remove_dir_all(entry.path())
                 .await
                 .with_context(|| format!("Failed to clear cache at {}", cache.display()))?;
@@ -190,16 +194,20 @@ pub fn remove_hash_sync<P: AsRef<Path>>(cache: P, sri: &Integrity) -> Result<()>
 /// ```
 pub fn clear_sync<P: AsRef<Path>>(cache: P) -> Result<()> {
     fn inner(cache: &Path) -> Result<()> {
-        for entry in cache
-            .read_dir()
-            .with_context(|| {
+        for entry in cache.read_dir().with_context(|| {
+            format!(
+                "Failed to read directory contents while clearing cache, at {}",
+                cache.display()
+            )
+        })? {
+            // An entry that can't be read is an error like any other: skipping
+            // it would report a cache as cleared that still holds everything.
+            let entry = entry.with_context(|| {
                 format!(
                     "Failed to read directory contents while clearing cache, at {}",
                     cache.display()
                 )
-            })?
-            .flatten()
-        {
+            })?;
             fs::remove_dir_all(entry.path())
                 .with_context(|| format!("Failed to clear cache at {}", cache.display()))?;
         }
